@@ -134,7 +134,12 @@ def handlePot (form : String) (args : List String) : Verdict :=
         let pts := pairs rows
         let wantN := ((rcut - rmin) / step + 100000001 / 100000000).floor.toNat
         let xsOk := (pts.zipIdx.all fun ((x, _), i) => if i + 1 == pts.length then close x rcut (1 / 10 ^ 8) else close x (rmin + (i : Rat) * step) (1 / 10 ^ 8))
-        let ysOk := pts.all fun (x, y) => close y (lj126 lam mn cut x).1 (1 / 10 ^ 6) || close x mn (1 / 10 ^ 8) || close x cut (1 / 10 ^ 8)
+        -- "the tabulated potential equals the function on the requested grid": row i carries the value at the REQUESTED point (rmin + i step,
+        -- the last row at rcut) — not at the re-read abscissa, which the 6-digit table format may move across the cutoff, where the function
+        -- drops to zero.  An interior requested point within 1e-9 of the cutoff is not judged (the accumulated abscissa of the code decides).
+        let ysOk := pts.zipIdx.all fun ((_, y), i) =>
+          let want := if i + 1 == pts.length then rcut else rmin + (i : Rat) * step
+          (i + 1 != pts.length && absRat (want - cut) ≤ 1 / 10 ^ 9) || close y (lj126 lam mn cut want).1 (1 / 10 ^ 6)
         pure (k == wantN && xsOk && ysOk, s!"rows={k}/{wantN} grid={xsOk} values={ysOk}")
       else pure (true, ""))
     let ok := numOk && symOk && tabOk
